@@ -601,6 +601,8 @@ def gen_modulo(src):
         b = [sgn(src, 0.3), str(B), e]
     elif shape == "quotient-big":
         a = rand_t(src)
+        if src.bool(0.5):
+            a[1] = dec.gen_coeff_declets(src)      # the reduction of a huge quotient goes by the digit count of the dividend
         b = [sgn(src), dec.gen_coeff(src), clip_exp(a[2] + len(a[1]) - src.int(30, 80))]
     elif shape == "tiny-dividend":
         b = rand_t(src)
@@ -752,7 +754,7 @@ def gen_unary(src, op):
         c = dec.gen_coeff(src, 34 - k)
         return [sgn(src), c + "0" * k if c != "0" else "0", -k], shape
     if shape == "35+digits":
-        c = dec.gen_coeff(src)
+        c = dec.gen_coeff_declets(src) if src.bool(0.5) else dec.gen_coeff(src)
         return [sgn(src), c, src.int(35 - len(c), 35 - len(c) + 40) if src.bool(0.7) else src.int(1, ETOP)], shape
     return [sgn(src), "0", src.int(-10, 10)], shape
 
